@@ -87,7 +87,7 @@ static runres drive(lzma_stream *s, const unsigned char *in, size_t n, const pla
 			continue;
 		}
 		if (ret == LZMA_BUF_ERROR && ((s->avail_in == 0 && ipos < n) || (s->avail_out == 0 && ocap < outcap))) { stall = 0; continue; }
-		if (ret == LZMA_GET_CHECK || ret == LZMA_NO_CHECK || ret == LZMA_UNSUPPORTED_CHECK) { stall = 0; continue; }
+		if (ret == LZMA_GET_CHECK || ret == LZMA_NO_CHECK || ret == LZMA_UNSUPPORTED_CHECK) { stall = 0; if (r.calls > maxcalls) { r.weird = 2; r.ret = ret; break; } continue; }	// informational codes come once per Stream, not for ever
 		r.ret = ret; break;
 	}
 	r.tin = s->total_in; r.tout = s->total_out; r.hash = h_fnv(d_out, (size_t)(s->total_out < OUTCAP ? s->total_out : OUTCAP), 0);
